@@ -21,3 +21,39 @@ pub mod slices {
                 same_except(old(w).fs, final(w).hist[i], old(dst)@.path) && final(w).hist[i].dirs == old(w).fs.dirs && final(w).hist[i].files.contains_key(old(dst)@.path),
     { unimplemented!() }
 }
+
+/// R25: `and_then` written out as a match, for Result and Option alike
+pub mod ctl {
+    use vstd::prelude::*;
+    pub enum Split<C, B> { Go(C), Stop(B) }
+    pub trait Splittable: Sized {
+        type C;
+        type B;
+        spec fn split_spec(self) -> Split<Self::C, Self::B>;
+        fn split(self) -> (r: Split<Self::C, Self::B>) ensures r == self.split_spec();
+    }
+    impl<T, E> Splittable for Result<T, E> {
+        type C = T;
+        type B = E;
+        open spec fn split_spec(self) -> Split<T, E> { match self { Ok(t) => Split::Go(t), Err(e) => Split::Stop(e) } }
+        fn split(self) -> (r: Split<T, E>) { match self { Ok(t) => Split::Go(t), Err(e) => Split::Stop(e) } }
+    }
+    impl<T> Splittable for Option<T> {
+        type C = T;
+        type B = ();
+        open spec fn split_spec(self) -> Split<T, ()> { match self { Some(t) => Split::Go(t), None => Split::Stop(()) } }
+        fn split(self) -> (r: Split<T, ()>) { match self { Some(t) => Split::Go(t), None => Split::Stop(()) } }
+    }
+    pub trait FromStop<B>: Sized {
+        spec fn from_stop_spec(b: B) -> Self;
+        fn from_stop(b: B) -> (r: Self) ensures r == Self::from_stop_spec(b);
+    }
+    impl<U, E> FromStop<E> for Result<U, E> {
+        open spec fn from_stop_spec(b: E) -> Self { Err(b) }
+        fn from_stop(b: E) -> (r: Self) { Err(b) }
+    }
+    impl<U> FromStop<()> for Option<U> {
+        open spec fn from_stop_spec(b: ()) -> Self { None }
+        fn from_stop(b: ()) -> (r: Self) { None }
+    }
+}
